@@ -6,6 +6,7 @@ import jax
 import jax.numpy as jnp
 import equinox as eqx
 import ginjax.geometric as geom
+import ginjax.ml as ml  # noqa: F401  (must be imported before ginjax.models: circular import in the library)
 import ginjax.models as models
 
 from gv import gen, netgen
@@ -27,7 +28,7 @@ ASSUMPTIONS = [
     "configurations for which a residual sum or skip concatenation would meet different type sets are not generated (the architecture cannot be evaluated there)",
 ]
 CONFIG = {
-    "quick": {"examples": 80, "shards": 16, "shrink_s": 60, "time_budget_s": 280},
+    "quick": {"examples": 128, "shards": 16, "shrink_s": 60, "time_budget_s": 280},
     "thorough": {"examples": 800, "shards": 16, "shrink_s": 240, "time_budget_s": 3200},
 }
 
@@ -93,7 +94,10 @@ def _wrapper_case(case):
         blocks[t] = a
     tor = (case["torus"],) * d
     x = geom.MultiImage({t: jnp.asarray(a, dtype=jnp.float32) for t, a in blocks.items()}, d, tor)
-    scal = _scalar_layout(d, sig, blocks, lead)
+    # the flattening uses the storage order of the multi-image the model actually receives: under jax.vmap that is the
+    # sorted order (pytree round trip of the argument), in a direct call the insertion order
+    runtime_sig = sorted(sig) if lead else sig
+    scal = _scalar_layout(d, runtime_sig, blocks, lead)
     n_scalar = scal.shape[lead]
     out_sig = sig
     if case["kind"] == "identity":
@@ -116,8 +120,11 @@ def _wrapper_case(case):
         out = jax.vmap(lambda m: fn(m)[0])(x)
     else:
         out = fn(x)[0]
-    if out.get_signature() != tuple(out_sig):
-        return result(viol("C20/wrapper/signature", f"{out.get_signature()} requested {tuple(out_sig)}"), True, key, labels)
+    # through jax.vmap the data dict of the *result* is rebuilt with sorted keys (accepted by C12/C13: pytree flattening
+    # reorders blocks); the order is therefore only compared for the direct call
+    got_sig = out.get_signature()
+    if (sorted(got_sig) != sorted(out_sig)) if lead else (got_sig != tuple(out_sig)):
+        return result(viol("C20/wrapper/signature", f"{got_sig} requested {tuple(out_sig)}"), True, key, labels)
     if out.D != d or tuple(out.is_torus) != tor or tuple(out.get_spatial_dims()) != (N,) * d:
         return result(viol("C20/wrapper/metadata", f"D={out.D} torus={out.is_torus} dims={out.get_spatial_dims()}"), True, key, labels)
     got_scal = _scalar_layout(d, out_sig, {t: np.asarray(v) for t, v in out.items()}, lead)
